@@ -524,7 +524,8 @@ pub fn c04_slot_phase(ctx: &mut Ctx) {
                                 return R { bad: Some(("C04/vftable-pointer-missing".into(), "the type declares a vftable block but has no vftable pointer field first".into(), case())), accepted: true };
                             }
                             let got: Vec<String> = vs.fields.iter().map(|f| f.name.clone()).collect();
-                            let reg = b.ok.state.type_registry().get(&ItemPath::from("ksw_m::TVftable")).and_then(|i| i.size());
+                            let state_guard = b.ok.state.lock().unwrap();
+                            let reg = state_guard.type_registry().get(&ItemPath::from("ksw_m::TVftable")).and_then(|i| i.size());
                             if got != want {
                                 return R { bad: Some(("C04/slot-sequence".into(), format!("expected slots {want:?}, emitted table fields {got:?}"), case())), accepted: true };
                             }
